@@ -456,7 +456,11 @@ def gen_history(rng, nf0, pattern=None):
     kinds = [k for k in KINDS if handles[k]]
     if not kinds:
         return [], "empty"
-    pattern = pattern or rng.choice(["single", "single", "shift", "shift-all", "permute", "swap", "restore", "random", "mixed", "collide"])
+    # numbers carried by objects of two or more kinds (independent number spaces that happen to coincide)
+    shared = sorted(n for n in set().union(*[set(cur[k]) for k in kinds]) if sum(1 for k in kinds if n in cur[k]) >= 2)
+    if pattern is None:
+        pattern = rng.choice(["single", "single", "shift", "shift-all", "permute", "swap", "restore", "random", "mixed", "collide",
+                              "rotate", "coincide", "coincide"] + (["coincide"] * 4 if shared else []))
     ops = []
 
     def used(k):
@@ -489,8 +493,56 @@ def gen_history(rng, nf0, pattern=None):
         for i in idx:
             assign(k, i, target[i])
 
+    def rotate(k):
+        # obj0 -> tmp, obj1 -> old number of obj0, ..., obj0 -> old number of the last: every number moves on by one
+        n = len(cur[k])
+        if n < 2:
+            assign(k, 0, fresh(k))
+            return
+        old = list(cur[k])
+        order = list(range(n))
+        rng.shuffle(order)
+        assign(k, order[0], fresh(k, 1000, 9999))
+        for a, b in zip(order[1:], order[:-1]):
+            assign(k, a, old[b])
+        assign(k, order[0], old[order[-1]])
+
     k = rng.choice(kinds)
-    if pattern == "single":
+    if pattern == "coincide":
+        # renumber an object whose number is also carried by an object of ANOTHER kind, while that other kind keeps it:
+        # single assignment, swap through a temporary, or rotation inside the kind
+        if shared:
+            n = rng.choice(shared)
+            k = rng.choice([kk for kk in kinds if n in cur[kk]])
+            pos = cur[k].index(n)
+            r = rng.random()
+            if r < 0.35 or len(cur[k]) < 2:
+                assign(k, pos, fresh(k, 1, 12) if rng.random() < 0.5 else fresh(k))
+            elif r < 0.75:
+                swap(k, pos, rng.choice([x for x in range(len(cur[k])) if x != pos]))
+            else:
+                rotate(k)
+            if rng.random() < 0.4:
+                # ... and afterwards the other kind moves onto / away from the number as well
+                others = [kk for kk in kinds if kk != k and n in cur[kk]]
+                if others:
+                    k2 = rng.choice(others)
+                    assign(k2, cur[k2].index(n), fresh(k2, 1, 12))
+        else:
+            # make two kinds coincide first, then swap inside one of them
+            n = rng.choice(cur[k])
+            for kk in kinds:
+                if kk != k and n not in used(kk):
+                    assign(kk, rng.randrange(len(cur[kk])), n)
+                    break
+            if len(cur[k]) >= 2:
+                pos = cur[k].index(n)
+                swap(k, pos, rng.choice([x for x in range(len(cur[k])) if x != pos]))
+            else:
+                assign(k, 0, fresh(k))
+    elif pattern == "rotate":
+        rotate(k)
+    elif pattern == "single":
         assign(k, rng.randrange(len(cur[k])), fresh(k))
     elif pattern == "shift":
         d = rng.choice([100, 1000, 7])
